@@ -180,7 +180,7 @@ def pipeline(src: str, want_census: bool = True) -> Dict[str, Any]:
             out["census"] = census_of(fdef)
             # generating code a second time from the same restructured graph must give the same census (the statement holds for every
             # regeneration; a generator that consumes or edits the blocks it emits is caught here)
-            out["second"] = {"outcome": "ok", "stage": "", "census": None}
+            out["second"] = {"outcome": "ok", "stage": "", "census": {}}
             try:
                 out["second"]["stage"] = "scfg2ast"
                 fdef2 = SCFG2AST(src, scfg)
